@@ -808,12 +808,11 @@ class EventSource(object):
             elif field == u'id':
                 self.leid = eid = value
             elif field == u'retry':  #
-                try:
-                    value = int(value)
-                except ValueError as ex:
-                    pass  # ignore
-                else:
-                    self.retry = value
+                if value.isascii() and value.isdigit():  # only ASCII digits
+                    try:
+                        self.retry = int(value)
+                    except ValueError as ex:  # more digits than int() converts
+                        pass  # ignore
 
         (yield (eid, ename, edata))
         return
